@@ -83,6 +83,24 @@ class AccessMixin:
             return External(obj.name + "." + name)
         if isinstance(obj, Unknown):
             return Unknown("attr %s of unknown(%s)" % (name, obj.reason))
+        if type(obj).__name__ == "SuperProxy":
+            I = self
+            if name == "__new__":
+                def type_new(a, k, n, f):
+                    # type.__new__(mcs, name, bases, namespace): a new class whose
+                    # namespace is a *copy* of the mapping passed in
+                    if len(a) >= 4 and isinstance(a[3], dict):
+                        e = EnumVal(dict(a[3]), a[0] if isinstance(a[0], ClassVal) else None)
+                        e.type_name = a[1]
+                        e.bases = a[2]
+                        e.namespace_arg = a[3]
+                        I.event("type-new", enum=e, namespace=a[3], where=f.where(n), node=n)
+                        return e
+                    return Unknown("type.__new__ with unexpected arguments")
+                return Builtin("type.__new__", type_new)
+            if name == "__init__":
+                return Builtin("type.__init__", lambda a, k, n, f: None)
+            return Unknown("super().%s" % name)
         if isinstance(obj, TypeOf):
             if name == "__name__":
                 return obj.name
